@@ -85,7 +85,7 @@ func families() []string {
 		json.Unmarshal([]byte(f), &r)
 		return r
 	}
-	return []string{"syntax", "f1", "f2", "f3", "f4", "f5", "f6", "strm"}
+	return []string{"syntax", "esc", "f1", "f2", "f3", "f4", "f5", "f6", "strm"}
 }
 
 var Spec = &gen.Spec{
@@ -190,15 +190,60 @@ func unitsToRunes(u []int) []rune {
 	return r
 }
 
+// SpecH: part (b), the lastIndex protocol as a state machine (spec/C10H.tla).
+var SpecH = &gen.Spec{
+	Module:  "C10H",
+	Prelude: Prelude,
+	PerVM:   1, // every transition is replayed on a fresh runtime
+	Runs: func(c *core.Ctx) []gen.RunCfg {
+		depth := 3
+		return []gen.RunCfg{{Name: fmt.Sprintf("lastIndex-histories-depth%d-%s", depth, c.Tier),
+			Cfg: fmt.Sprintf("CONSTANTS\n OpenDev = %s\n Tier = %q\n MaxLen = %d\nINIT Init\nNEXT Next\nVIEW View\nCHECK_DEADLOCK FALSE\nINVARIANT LastIndexShape\nPROPERTIES NonGlobalNeverAdvances SearchSplitLeaveState\n",
+				core.TLASet(c.Findings.OpenIDs()), c.Tier, depth)}}
+	},
+}
+
+func has(fams []string, f string) bool {
+	for _, x := range fams {
+		if x == f {
+			return true
+		}
+	}
+	return false
+}
+
+func addInt(dst map[string]any, src map[string]any, keys ...string) {
+	for _, k := range keys {
+		a, _ := dst[k].(int64)
+		b, _ := src[k].(int64)
+		dst[k] = a + b
+	}
+}
+
 func Check(c *core.Ctx) (map[string]any, []string, error) {
+	fams := families()
 	cov, assume, err := gen.Check(c, Spec)
 	if err != nil {
 		return nil, nil, err
 	}
-	tr, err := translate(c)
-	if err != nil {
-		return nil, nil, fmt.Errorf("translation pass: %v", err)
+	cov["rule"] = "one case per TLC state of the generator module (an exec case evaluates one pattern on a list of subjects), one case per transition of the lastIndex state machine"
+	if os.Getenv("VERIF_C10_FAMS") == "" || has(fams, "hist") {
+		hc, _, err := gen.Check(c, SpecH)
+		if err != nil {
+			return nil, nil, fmt.Errorf("lastIndex state machine: %v", err)
+		}
+		addInt(cov, hc, "states", "transitions", "traces_validated_against_impl", "conforming", "conforming_to_known_deviation",
+			"non_reproducible_skipped", "evaluations")
+		cov["tlc_runs"] = append(cov["tlc_runs"].([]map[string]any), hc["tlc_runs"].([]map[string]any)...)
+		cov["lastindex_state_machine"] = map[string]any{"transitions_replayed": hc["evaluations"], "distinct_expected_outcomes": hc["distinct_expected_outcomes"],
+			"model_properties_checked": []string{"LastIndexShape", "NonGlobalNeverAdvances", "SearchSplitLeaveState"}}
 	}
-	cov["translation_direct"] = tr
+	if os.Getenv("VERIF_C10_FAMS") == "" || has(fams, "xlate") {
+		tr, err := translate(c)
+		if err != nil {
+			return nil, nil, fmt.Errorf("translation pass: %v", err)
+		}
+		cov["translation_direct"] = tr
+	}
 	return cov, assume, nil
 }
